@@ -406,7 +406,8 @@ def _build_variants():
             return n.map(lambda k: k * step)
         num = st.one_of(st.sampled_from([1, 2**19 - 1, 2**19, 2**19 + 1, 2**20 - 1]), U(20).map(lambda v: v or 1))
         off = st.tuples(n, num).map(lambda a: (a[0] + a[1] / 2**20) * step)
-        return st.one_of(off, off, st.floats(-float(lim), float(lim), exclude_max=True, allow_nan=False))
+        edge = st.tuples(st.sampled_from([nmax, nmin, -1, 0]), num).map(lambda a: (a[0] + a[1] / 2**20) * step)  # last / first step, around zero
+        return st.one_of(off, off, edge, st.floats(-float(lim), float(lim), exclude_max=True, allow_nan=False))
 
     def flc(name, flco, fields):
         for crclen in (24, 5):
@@ -850,11 +851,18 @@ def drv_atheris(ctx: Ctx, sub: SubCheck):
             for fn in sorted(os.listdir(corpus)):
                 with open(os.path.join(corpus, fn), "rb") as fh:
                     inputs.append(fh.read().hex())
-            if p.returncode not in (0, None) and not os.path.exists(findings):
-                ctx.tally.notes.append(f"atheris worker exit status {p.returncode}: {(err or '')[-300:]}")
+            if p.returncode not in (0, None):
+                # the harness itself stopped (uncaught exception / signal): the unit it stopped on is re-judged below like
+                # every other input; the tail of its stderr goes into the evidence notes
+                tail = [ln for ln in (err or "").splitlines() if not ln.startswith(("INFO: Instrumenting", "#"))][-25:]
+                ctx.tally.notes.append(f"atheris worker exit status {p.returncode}: " + " | ".join(tail)[-1500:])
                 if os.environ.get("VP_ATHERIS_KEEP_STDERR"):
                     with open(os.environ["VP_ATHERIS_KEEP_STDERR"], "a") as fh:
                         fh.write(err or "")
+        for fn in sorted(os.listdir(tmp)):
+            if fn.startswith("art") and os.path.isfile(os.path.join(tmp, fn)):
+                with open(os.path.join(tmp, fn), "rb") as fh:
+                    inputs.append(fh.read().hex())
         seen = set()
         for h in inputs:
             case = case_from_fuzz_bytes(bytes.fromhex(h))
